@@ -120,6 +120,7 @@ def mk_recipe(I, steps, results, stages):
     used = B.make_set(I, list(results))
     r.fields.update(results=dict(results), steps=list(steps), stages=dict(stages), current_stage='all',
                     current_stage_start=0, locked=True, used=used)
+    clib.init_defaults(I, r)
     return r
 
 
@@ -257,6 +258,18 @@ def run_used(pid, sc, tf, dest, k, unit):
             I.oblige('raises[net-decrease]', delta < 0, 'property', note=f'ValueError at line {out.exc.lineno} without a net decrease')
         else:
             I.oblige(f'safe[{out.exc.cls}]', False, 'property', note=f'{out.exc.cls} at line {out.exc.lineno}')
+        # the same question asked again in another unit of the same dimension: answered by definition as well (nothing of
+        # the first answer may be remembered under a key that forgets the unit)
+        unit2 = {'umol': 'mmol', 'mmol': 'umol', 'mL': 'uL', 'uL': 'mL', 'mg': 'g'}.get(unit)
+        if unit2 is not None and out.kind == 'return':
+            out2 = vc.call(I, 'Recipe.get_substance_used', [r, SubV(s), tf, unit2, dests])
+            want2 = spec.convert_spec(S, delta, from_unit, unit2)
+            prec2 = I.cfg.data['precisions'].get(unit2, I.cfg.data['precisions']['default'])
+            if out2.kind == 'return':
+                I.oblige('ensures[net-gain/asked-again]', real(out2.value) == B.rnd(z3.IntVal(prec2), want2), 'property',
+                         note=f'the same question asked again in {unit2} (after {unit}) is answered in {unit2}')
+            else:
+                I.oblige('ensures[net-gain/asked-again]', False, 'property', note=f'{out2.exc.cls} when asked again in {unit2}')
         return out
     for I, out in vc.explore(body, contracts=clib.contracts(), max_paths=200):
         if isinstance(out, vc.Outcome) and out.kind == 'unsupported':
